@@ -732,19 +732,24 @@ def cadence_items(tier, seed):
         out.append(_item("nature_dqn", "cccTcccc", _cfg("nature_dqn", seed, 3, 0, global_step=4)))
         out.append(_item("sac", "cccTcccc", _cfg("sac", seed, 3, 2, 0.25, global_step=4)))
         return out
-    # thorough: full products
+    # thorough: full products (the two-valued tau / update-frequency axes in full, the edge values on a script subset)
     scripts = senv.scripts(T, "cTU", max_dev=1)
     few = ["c" * T, "cccTcccc", "ccUccccc", "cTccccUc", "TTUUTTUU"]
-    taus = [0.0, 0.005, 0.25, 1.0]
     for name in ("nature_dqn", "ddqn", "ddqn_per"):
-        for d, ls, uf, s in itertools.product(delays, [0, 2, 5], [1, 2], scripts):
-            out.append(_item(name, s, _cfg(name, seed, d, ls, update_frequency=uf)))
+        for d, ls, s in itertools.product(delays, [0, 2, 5], scripts):
+            out.append(_item(name, s + "cc", _cfg(name, seed, d, ls)))
+        for d, ls, s in itertools.product(delays, [0, 2, 5], few):
+            out.append(_item(name, s + "cc", _cfg(name, seed, d, ls, update_frequency=2)))
         for d, gs, s in itertools.product(delays, [3, 4], few):
             out.append(_item(name, s, _cfg(name, seed, d, 0, global_step=gs)))
-    for ls, tau, s in itertools.product([0, 2], taus, scripts):
+    for ls, tau, s in itertools.product([0, 2], [0.25, 1.0], scripts):
+        out.append(_item("ddpg", s, _cfg("ddpg", seed, 1, ls, tau)))
+    for ls, tau, s in itertools.product([0, 2], [0.0, 0.005], few):
         out.append(_item("ddpg", s, _cfg("ddpg", seed, 1, ls, tau)))
     for name in ("td3", "td3_lap", "sac"):
-        for d, ls, tau, s in itertools.product(delays, [0, 2], taus, scripts):
+        for d, ls, tau, s in itertools.product(delays, [0, 2], [0.25, 1.0], scripts):
+            out.append(_item(name, s, _cfg(name, seed, d, ls, tau)))
+        for d, ls, tau, s in itertools.product(delays, [0, 2], [0.0, 0.005], few):
             out.append(_item(name, s, _cfg(name, seed, d, ls, tau)))
         for d, gs, s in itertools.product(delays, [3, 4], few):
             out.append(_item(name, s, _cfg(name, seed, d, 2, 0.25, global_step=gs)))
@@ -794,10 +799,11 @@ def created_items(tier, seed):
 def items(tier, seed):
     law = [dict(name=f"law-{k}", part="law", kind=k, seed=seed) for k in LAW_KINDS]
     cad = cadence_items(tier, seed)
-    # expensive routines first so that the pool balances
-    cost = {"mrq": 3, "td7": 2}
-    cad.sort(key=lambda i: -cost.get(i["routine"], 0))
-    return cad + created_items(tier, seed) + law
+    # expensive routines first so that the pool balances; the small complete parts (law, created targets) next
+    slow = [i for i in cad if i["routine"] in ("mrq", "td7")]
+    slow.sort(key=lambda i: i["routine"] != "mrq")
+    rest = [i for i in cad if i["routine"] not in ("mrq", "td7")]
+    return slow + law + created_items(tier, seed) + rest
 
 
 def work(item, col):
